@@ -10,6 +10,7 @@ import (
 	"math/rand/v2"
 	"os"
 	"runtime"
+	"sort"
 	"strconv"
 	"strings"
 	"sync"
@@ -138,12 +139,30 @@ func (b *batch) generic(r *rand.Rand, plain bool) map[string][]interface{} {
 		}
 		cols[c.Name] = col
 	}
-	return cols
+	return shuffledMap(r, cols)
+}
+
+// shuffledMap returns a copy of m filled in a random key order. A Go map's iteration
+// order depends on the order in which its keys were inserted (small maps iterate a
+// rotation of it); a client payload or decoder fills the map in any order, so the order
+// is drawn per batch instead of always being time, rid, columns-in-schema-order.
+func shuffledMap[V any](r *rand.Rand, m map[string]V) map[string]V {
+	keys := make([]string, 0, len(m))
+	for k := range m {
+		keys = append(keys, k)
+	}
+	sort.Strings(keys)
+	r.Shuffle(len(keys), func(i, j int) { keys[i], keys[j] = keys[j], keys[i] })
+	out := make(map[string]V, len(m))
+	for _, k := range keys {
+		out[k] = m[k]
+	}
+	return out
 }
 
 // typed renders a batch as *ingest.TypedColumnBatch. shape picks one of the validity
 // representations the type's contract allows.
-func (b *batch) typed(shape int) *ingest.TypedColumnBatch {
+func (b *batch) typed(r *rand.Rand, shape int) *ingest.TypedColumnBatch {
 	data := map[string]interface{}{}
 	var validity map[string][]bool
 	if shape != 0 {
@@ -229,11 +248,11 @@ func (b *batch) typed(shape int) *ingest.TypedColumnBatch {
 			validity[c.Name] = nil
 		}
 	}
-	return &ingest.TypedColumnBatch{Data: data, Validity: validity}
+	return &ingest.TypedColumnBatch{Data: shuffledMap(r, data), Validity: validity}
 }
 
 // rows renders a batch as row-format records; null cells are omitted fields/tags.
-func (b *batch) rows() []interface{} {
+func (b *batch) rows(r *rand.Rand) []interface{} {
 	isTag := map[string]bool{}
 	for _, t := range b.RowTags {
 		isTag[t] = true
@@ -256,6 +275,7 @@ func (b *batch) rows() []interface{} {
 			}
 			rec.Fields[c.Name] = v
 		}
+		rec.Fields = shuffledMap(r, rec.Fields)
 		out[i] = rec
 	}
 	return out
@@ -279,7 +299,7 @@ func call(buf *ingest.ArrowBuffer, dec, decTyped *ingest.MessagePackDecoder, r *
 	case "write1":
 		return buf.Write(ctx, b.DB, []interface{}{&models.ColumnarRecord{Measurement: b.M, Columnar: true, Columns: b.generic(r, false)}})
 	case "typed":
-		return buf.WriteTypedColumnarDirect(ctx, b.DB, b.M, b.typed(o.ValShape), b.N)
+		return buf.WriteTypedColumnarDirect(ctx, b.DB, b.M, b.typed(r, o.ValShape), b.N)
 	case "msgpack":
 		cols := map[string]interface{}{}
 		for k, v := range b.generic(r, true) {
@@ -299,7 +319,7 @@ func call(buf *ingest.ArrowBuffer, dec, decTyped *ingest.MessagePackDecoder, r *
 		}
 		return buf.Write(ctx, b.DB, recs)
 	case "rows":
-		return buf.Write(ctx, b.DB, b.rows())
+		return buf.Write(ctx, b.DB, b.rows(r))
 	case "writeN":
 		// one database per call (the first batch's); at most one row-format batch so that
 		// no measurement gets two differently typed row groups in one call
@@ -310,13 +330,13 @@ func call(buf *ingest.ArrowBuffer, dec, decTyped *ingest.MessagePackDecoder, r *
 			case i == len(o.Batches)-1 && o.ValShape%2 == 0:
 				prepRowsTimes(bb)
 				bb.Rendered = "rows"
-				recs = append(recs, bb.rows()...)
+				recs = append(recs, bb.rows(r)...)
 			case (i+o.ValShape)%2 == 0:
 				bb.Rendered = "columnar"
 				recs = append(recs, &models.ColumnarRecord{Measurement: bb.M, Columnar: true, Columns: bb.generic(r, false)})
 			default:
 				bb.Rendered = "typed"
-				recs = append(recs, &ingest.TypedColumnarRecord{Measurement: bb.M, Batch: bb.typed(o.ValShape), NumRecords: bb.N})
+				recs = append(recs, &ingest.TypedColumnarRecord{Measurement: bb.M, Batch: bb.typed(r, o.ValShape), NumRecords: bb.N})
 			}
 		}
 		return buf.Write(ctx, b.DB, recs)
@@ -408,10 +428,11 @@ func runCase(s *caseSpec, seed uint64) *caseResult {
 	decTyped := ingest.NewMessagePackDecoder(lg)
 	decTyped.SetTypedDecodeEnabled(true)
 
-	outs := make([][]outcome, s.Writers)
+	// Ops[:Writers] are the regular writers, Ops[Writers:] those of the type-permutation family
+	outs := make([][]outcome, len(s.Ops))
 	var wg sync.WaitGroup
 	start := make(chan struct{})
-	for w := 0; w < s.Writers; w++ {
+	for w := 0; w < len(s.Ops); w++ {
 		wg.Add(1)
 		go func(w int) {
 			defer wg.Done()
@@ -488,8 +509,25 @@ func runCase(s *caseSpec, seed uint64) *caseResult {
 		}
 	}
 
+	if s.Swap != nil {
+		res.Stats["cases_with_typeswap_family"]++
+		res.Stats["typeswap_type_switches_issued"] += int64(s.Swap.Switches)
+		res.Stats["typeswap_distinct_type_assignments"] += int64(s.Swap.Distinct)
+		res.Stats[fmt.Sprintf("typeswap_cases_%d_permuted_columns", len(s.Swap.Cols))]++
+		if !s.Swap.Own {
+			res.Stats["typeswap_cases_on_a_measurement_of_the_regular_workload"]++
+		}
+	}
+
 	allWritten := func(st map[string]interface{}) bool {
 		return statI(st, "total_records_written") >= gt.acceptedRows && statI(st, "flush_queue_depth") == 0
+	}
+	// Waiting ends early once arc itself has flagged a failed flush (sticky, exported) and
+	// the queue is empty: the rows of that flush were discarded, so the written counter
+	// cannot reach the accepted count any more. The case then takes the same path as an
+	// expired wait: Close, and compare because the queue was empty at Close.
+	flushFailed := func(st map[string]interface{}) bool {
+		return buf.HasFlushFailure() && statI(st, "flush_queue_depth") == 0 && statI(st, "active_buffers") == 0
 	}
 	closed := false
 	switch s.Final {
@@ -502,10 +540,12 @@ func runCase(s *caseSpec, seed uint64) *caseResult {
 	case "age":
 		// let the timer do it: no explicit flush until every buffer has been flushed by age
 		ok := waitStats(buf, watchdog, func(st map[string]interface{}) bool {
-			return statI(st, "active_buffers") == 0 && allWritten(st)
+			return (statI(st, "active_buffers") == 0 && allWritten(st)) || flushFailed(st)
 		})
 		if !ok {
 			res.Inconclusive = "age-triggered flush did not drain the buffers within the watchdog"
+		} else if st := buf.GetStats(); !allWritten(st) {
+			res.Inconclusive = "arc flagged a failed flush; written counter below the accepted rows with no buffer and no queued task left"
 		} else {
 			res.Stats["cases_drained_by_age_timer_alone"]++
 		}
@@ -514,8 +554,10 @@ func runCase(s *caseSpec, seed uint64) *caseResult {
 		if err := buf.FlushAll(context.Background()); err != nil {
 			res.Findings = append(res.Findings, finding{"FlushAll returned an error on a healthy local backend", map[string]any{"err": err.Error()}})
 		}
-		if !waitStats(buf, watchdog, allWritten) {
+		if !waitStats(buf, watchdog, func(st map[string]interface{}) bool { return allWritten(st) || flushFailed(st) }) {
 			res.Inconclusive = "flush queue did not drain within the watchdog"
+		} else if st := buf.GetStats(); !allWritten(st) {
+			res.Inconclusive = "arc flagged a failed flush; written counter below the accepted rows with no buffer and no queued task left"
 		}
 	}
 	if !closed && res.Inconclusive == "" && s.Final == "close" && len(s.Tail) > 0 {
